@@ -84,6 +84,17 @@ pub fn generate(seed: u64) -> C19Scn {
             tos.push(Some(AttrVal::Val(reftime::format_wall(x + off_secs))));
         }
     }
+    // spellings of the same instants that the library also accepts (unpadded fields, extra blanks)
+    for x in e {
+        let w = reftime::format_wall(x + off_secs);
+        let unpadded = w.replace("-0", "-").replace(" 0", " ");
+        if unpadded != w {
+            tos.push(Some(AttrVal::Val(unpadded)));
+        }
+        if rng.chance(1, 2) {
+            tos.push(Some(AttrVal::Val(w.replacen(' ', "  ", 1))));
+        }
+    }
     tos.push(Some(AttrVal::Val("9999-12-31 23:59:59".into())));
     tos.push(Some(AttrVal::Val("2024/02/29 00:00:00".into())));
     tos.push(None);
